@@ -23,12 +23,32 @@ Theorem C06_jacobi_sweep (w : S) (A : crs S) (junk rhs x tmp : vec S) i :
   vget x i + w * sinv (mget A i i) * (vget rhs i - Ax A x i).
 Proof. exact (jacobi_sweep_spec Sft Seqb w A junk rhs x tmp i). Qed.
 
+(* spai0.hpp after the repair of finding C06-spai0-no-conj: M_i = inverse(sum_j |a_ij|^2) * adjoint(a_ii).
+   [mget_adj A i i] (RelaxProofs.v) = the sum of math::adjoint(v) over the stored entries (i,i), as coded -- no law of
+   sadj is needed; if sadj is additive and fixes 0 it is sadj (mget A i i) (second theorem); for real value types
+   (sadj = id) the statement is the one from before the repair (C06_spai0_sweep_real). *)
 Theorem C06_spai0_sweep (A : crs S) (rhs x tmp : vec S) i :
   wf A = true ->
   length rhs = nrows A -> length x = nrows A -> length tmp = nrows A -> i < nrows A ->
   vget (fst (spai0_sweep (spai0_setup A) A rhs x tmp)) i =
-  vget x i + sinv (row_norm2 (nth i (rows A) [])) * mget A i i * (vget rhs i - Ax A x i).
+  vget x i + sinv (row_norm2 (nth i (rows A) [])) * mget_adj A i i * (vget rhs i - Ax A x i).
 Proof. exact (spai0_sweep_spec Sft Seqb A rhs x tmp i). Qed.
+
+Theorem C06_spai0_sweep_adjoint (A : crs S) (rhs x tmp : vec S) i :
+  (forall a b : S, sadj (a + b) = sadj a + sadj b) -> sadj (@s0 S) = s0 ->
+  wf A = true ->
+  length rhs = nrows A -> length x = nrows A -> length tmp = nrows A -> i < nrows A ->
+  vget (fst (spai0_sweep (spai0_setup A) A rhs x tmp)) i =
+  vget x i + sinv (row_norm2 (nth i (rows A) [])) * sadj (mget A i i) * (vget rhs i - Ax A x i).
+Proof. exact (spai0_sweep_spec_sadj Sft Seqb A rhs x tmp i). Qed.
+
+Theorem C06_spai0_sweep_real (A : crs S) (rhs x tmp : vec S) i :
+  (forall a : S, sadj a = a) ->
+  wf A = true ->
+  length rhs = nrows A -> length x = nrows A -> length tmp = nrows A -> i < nrows A ->
+  vget (fst (spai0_sweep (spai0_setup A) A rhs x tmp)) i =
+  vget x i + sinv (row_norm2 (nth i (rows A) [])) * mget A i i * (vget rhs i - Ax A x i).
+Proof. exact (spai0_sweep_spec_id Sft Seqb A rhs x tmp i). Qed.
 
 (* --- 2. Gauss-Seidel, serial sweeps: the sweep equations --------------------------- *)
 Theorem C06_gs_forward (A : crs S) (rhs x : vec S) :
@@ -204,6 +224,8 @@ Proof. exact (cheby_sweep_junk_independent (F_R Sft) Seqb c d M degree A b x p r
 End Field.
 Print Assumptions C06_jacobi_sweep.
 Print Assumptions C06_spai0_sweep.
+Print Assumptions C06_spai0_sweep_adjoint.
+Print Assumptions C06_spai0_sweep_real.
 Print Assumptions C06_gs_forward.
 Print Assumptions C06_gs_backward.
 Print Assumptions C06_jacobi_fixed_point.
@@ -307,6 +329,95 @@ Example C06_sweeps_nonvacuous : c06_sweeps_check = true.
 Proof. exact c06_sweeps_check_ok. Qed.
 
 (* ====================================================================================== *)
+(* SPAI-0 after the repair of finding C06-spai0-no-conj (spai0.hpp: num += math::adjoint(v)).
+   (a) the two laws of math::adjoint used by C06_spai0_sweep_adjoint / C06_nc_spai0_sweep_adjoint hold at the value
+       types of the tie: exact rationals (sadj = id: the statement from before the repair), std::complex over any
+       commutative ring (conjugation), static_matrix blocks (transpose) -- Spai0Inst.v;
+   (b) NEW: SPAI-0 is the row-wise least-squares minimiser -- for real value types (C06_spai0_minimiser_real), and,
+       the clause of C06 that was refuted until the repair, for COMPLEX values (ComplexS S0, S0 an ordered field)
+       M_i = spai0_row i r minimises the squared Euclidean norm of row i of I - M A,
+           spai0_res2 n i r m = sum_{j<n} | delta_ij - m * a_ij |^2      (|z|^2 = re^2 + im^2, an element of S0),
+       over ALL complex m; guards: the stored row has no duplicate columns, columns < n, and math::norm (a square
+       root) is exact on the stored entries (sqrt_exact_on; no hypothesis that the row is non-zero) -- Spai0Min.v;
+   (c) HISTORICAL: the formula before the repair (Relax.spai0_row_old = a_ii / sum|a_ij|^2) is NOT the minimiser
+       (row (3+4i, 5+12i): residual 233/194 instead of 169/194); for rows of real numbers both formulas agree. *)
+From Amgcl Require Import ComplexInst AmgOrder Spai0Min Spai0MinQc Spai0Inst.
+
+Theorem C06_spai0_sweep_Qc (A : crs QcS) (rhs x tmp : vec QcS) i :
+  wf A = true ->
+  length rhs = nrows A -> length x = nrows A -> length tmp = nrows A -> i < nrows A ->
+  vget (fst (spai0_sweep (spai0_setup A) A rhs x tmp)) i =
+  vget x i + sinv (row_norm2 (nth i (rows A) [])) * mget A i i * (vget rhs i - Ax A x i).
+Proof. exact (spai0_sweep_Qc A rhs x tmp i). Qed.
+Print Assumptions C06_spai0_sweep_Qc.
+
+Theorem C06_spai0_sweep_complex (S0 : Scalar) (Srt : Sring S0) (Seqb0 : seqb_spec S0)
+        (A : crs (ComplexS S0)) (rhs x tmp : vec (ComplexS S0)) i :
+  wf A = true ->
+  length rhs = nrows A -> length x = nrows A -> length tmp = nrows A -> i < nrows A ->
+  vget (fst (spai0_sweep (spai0_setup A) A rhs x tmp)) i =
+  vget x i + sinv (row_norm2 (nth i (rows A) [])) * sadj (mget A i i) * (vget rhs i - Ax A x i).
+Proof. exact (spai0_sweep_complex S0 Srt Seqb0 A rhs x tmp i). Qed.
+Print Assumptions C06_spai0_sweep_complex.
+
+Theorem C06_spai0_sweep_blocks_Qc (b : nat) (A : crs (BlockInst.BlockS QcS b)) (rhs x tmp : vec (BlockInst.BlockS QcS b)) i :
+  wf A = true ->
+  length rhs = nrows A -> length x = nrows A -> length tmp = nrows A -> i < nrows A ->
+  vget (fst (spai0_sweep (spai0_setup A) A rhs x tmp)) i =
+  vget x i + sinv (row_norm2 (nth i (rows A) [])) * sadj (mget A i i) * (vget rhs i - Ax A x i).
+Proof. exact (spai0_sweep_blocks_Qc b A rhs x tmp i). Qed.
+Print Assumptions C06_spai0_sweep_blocks_Qc.
+
+(* the base clause, real value types (ordered field, math::norm^2 = v^2, math::adjoint = id):
+   sum_{j<n} (delta_ij - m a_ij)^2 is minimal at m = spai0_row i r = a_ii / sum_j a_ij^2 *)
+Theorem C06_spai0_minimiser_real (S : Scalar) (Sft : Sfield S) (Ord : ordered S)
+        (Habs2 : forall v : S, sabs v * sabs v = v * v) (Hadj : forall v : S, sadj v = v)
+        n i (r : row S) (m : S) :
+  i < n -> NoDup (map fst r) -> row_wf n r = true ->
+  ole (spai0_rres2 n i r (spai0_row i r)) (spai0_rres2 n i r m).
+Proof. exact (spai0_row_minimises_real Sft Ord Habs2 Hadj n i r m). Qed.
+Print Assumptions C06_spai0_minimiser_real.
+
+Theorem C06_spai0_minimiser_real_Qc n i (r : row QcS) (m : QcS) :
+  i < n -> NoDup (map fst r) -> row_wf n r = true ->
+  ole (spai0_rres2 n i r (spai0_row i r)) (spai0_rres2 n i r m).
+Proof. exact (spai0_row_minimises_real_Qc n i r m). Qed.
+Print Assumptions C06_spai0_minimiser_real_Qc.
+
+Theorem C06_spai0_minimiser_complex (S0 : Scalar) (Sft0 : Sfield S0) (Ord : ordered S0)
+        n i (r : row (ComplexS S0)) (m : ComplexS S0) :
+  i < n -> NoDup (map fst r) -> row_wf n r = true -> sqrt_exact_on S0 r ->
+  ole (spai0_res2 S0 n i r (spai0_row i r)) (spai0_res2 S0 n i r m).
+Proof. exact (spai0_row_minimises S0 Sft0 Ord n i r m). Qed.
+Print Assumptions C06_spai0_minimiser_complex.
+
+Theorem C06_spai0_minimiser_complex_Qc n i (r : row (ComplexS QcS)) (m : ComplexS QcS) :
+  i < n -> NoDup (map fst r) -> row_wf n r = true -> sqrt_exact_on QcS r ->
+  ole (spai0_res2 QcS n i r (spai0_row i r)) (spai0_res2 QcS n i r m).
+Proof. exact (spai0_row_minimises_Qc n i r m). Qed.
+Print Assumptions C06_spai0_minimiser_complex_Qc.
+
+(* non-vacuity: the row (3+4i, 5+12i) meets the guards; SPAI-0 returns (3-4i)/194, residual 169/194, minimal *)
+Example C06_spai0_minimiser_complex_nonvacuous :
+  (0 < 2 /\ NoDup (map fst sp_r0) /\ row_wf 2 sp_r0 = true /\ sqrt_exact_on QcS sp_r0) /\
+  spai0_row 0 sp_r0 = ((qc 3 194, qc (-4) 194) : T CQcS) /\
+  forall m : CQcS, ole (qc 169 194) (spai0_res2 QcS 2 0 sp_r0 m).
+Proof. exact (conj sp_r0_guards (conj sp_r0_spai0 sp_r0_minimal)). Qed.
+
+(* HISTORICAL (finding C06-spai0-no-conj, fixed): the formula before the repair is not the minimiser *)
+Theorem C06_spai0_old_formula_not_minimiser_refuted :
+  exists (n i : nat) (r : row CQcS) (m : CQcS),
+    i < n /\ NoDup (map fst r) /\ row_wf n r = true /\ sqrt_exact_on QcS r /\
+    olt (spai0_res2 QcS n i r m) (spai0_res2 QcS n i r (spai0_row_old i r)).
+Proof. exact spai0_row_old_not_minimiser. Qed.
+Print Assumptions C06_spai0_old_formula_not_minimiser_refuted.
+
+Theorem C06_spai0_repair_leaves_real_rows_unchanged (i : nat) (r : row CQcS) :
+  (forall e, In e r -> c_im (snd e) = s0) -> spai0_row i r = spai0_row_old i r.
+Proof. exact (spai0_row_old_real_rows_agree i r). Qed.
+Print Assumptions C06_spai0_repair_leaves_real_rows_unchanged.
+
+(* ====================================================================================== *)
 (* NON-COMMUTATIVE value types (amgcl::static_matrix<T,b,b> blocks): the operand ORDER of every
    product is part of the statement.  [ncring_theory S] (NcRing.v) = ring laws without
    commutativity of [*]; every commutative ring and every [BlockS S0 b] (BlockInst.v: the Scalar
@@ -339,8 +450,17 @@ Theorem C06_nc_spai0_sweep (A : crs S) (rhs x tmp : vec S) i :
   wf A = true ->
   length rhs = nrows A -> length x = nrows A -> length tmp = nrows A -> i < nrows A ->
   vget (fst (spai0_sweep (spai0_setup A) A rhs x tmp)) i =
-  vget x i + sinv (row_norm2 (nth i (rows A) [])) * mget A i i * (vget rhs i - Ax A x i).
+  vget x i + sinv (row_norm2 (nth i (rows A) [])) * mget_adj A i i * (vget rhs i - Ax A x i).
 Proof. exact (nc_spai0_sweep_spec Hnc Seqb A rhs x tmp i). Qed.
+
+(* math::adjoint additive with adjoint(0) = 0 (blocks: transpose, complex numbers: conjugate): adjoint of the dense diagonal block *)
+Theorem C06_nc_spai0_sweep_adjoint (A : crs S) (rhs x tmp : vec S) i :
+  (forall a b : S, sadj (a + b) = sadj a + sadj b) -> sadj (@s0 S) = s0 ->
+  wf A = true ->
+  length rhs = nrows A -> length x = nrows A -> length tmp = nrows A -> i < nrows A ->
+  vget (fst (spai0_sweep (spai0_setup A) A rhs x tmp)) i =
+  vget x i + sinv (row_norm2 (nth i (rows A) [])) * sadj (mget A i i) * (vget rhs i - Ax A x i).
+Proof. exact (nc_spai0_sweep_spec_sadj Hnc Seqb A rhs x tmp i). Qed.
 
 (* --- 2'. Gauss-Seidel: a_ii * x'_i = f_i - sum a_ij * x_j ; needs a_ii * a_ii^-1 = 1 (RIGHT inverse) --- *)
 Theorem C06_nc_gs_forward (A : crs S) (rhs x : vec S) :
@@ -482,6 +602,7 @@ Proof. exact (nc_ilup_exact_on_pattern Hnc Seqb Hinv k A junk L U D). Qed.
 End NonCommutative.
 Print Assumptions C06_nc_jacobi_sweep.
 Print Assumptions C06_nc_spai0_sweep.
+Print Assumptions C06_nc_spai0_sweep_adjoint.
 Print Assumptions C06_nc_gs_forward.
 Print Assumptions C06_nc_gs_backward.
 Print Assumptions C06_nc_jacobi_fixed_point.
